@@ -148,7 +148,9 @@ func chunkText(i, size int) []byte {
 // runWriter executes one writer run under the simulator.
 func runWriter(rc *RunCtx, p writerPlan, w *simrt.SimWriteCloser) SimResult {
 	batches := makeBatches(p.Recs, p.Sizes, "sim")
-	return rc.Sim(SimOpts{}, func() {
+	// sub-statement scheduling points inside the chunk writer: "main returns before the writer
+	// goroutine has closed the file" must be a reachable interleaving
+	return rc.Sim(SimOpts{YieldDensity: rc.Sched.Choose(4)}, func() {
 		switch p.Kind {
 		case wkChunk:
 			ch, _ := obiformats.WriteSeqFileChunk(w, true)
